@@ -68,51 +68,27 @@ Proof.
   apply Hn. apply Hc; auto.
 Qed.
 
-(** GCN3 ALU: opcodes whose handler deviates from the manual on plain SGPR operands *)
-Theorem gcn3_deviations_refuted :
-  ~ conforms GCN3 F_SOP2 1 false /\ ~ conforms GCN3 F_SOP2 2 false /\ ~ conforms GCN3 F_SOP2 4 false /\
-  ~ conforms GCN3 F_SOP2 6 false /\ ~ conforms GCN3 F_SOP2 7 false /\ ~ conforms GCN3 F_SOP2 8 false /\
-  ~ conforms GCN3 F_SOP2 9 false /\ ~ conforms GCN3 F_SOP2 32 false /\ ~ conforms GCN3 F_SOP2 36 false /\
-  ~ conforms GCN3 F_SOP2 38 false /\ ~ conforms GCN3 F_SOP1 4 false /\ ~ conforms GCN3 F_SOP1 28 false /\
-  ~ conforms GCN3 F_SOPK 2 false /\ ~ conforms GCN3 F_SOPK 3 false.
-Proof.
-  repeat split; apply refuted_not_conforms.
-  exact g_sub_u32. exact g_add_i32. exact g_addc_u32. exact g_min_i32. exact g_min_u32. exact g_max_i32.
-  exact g_max_u32. exact g_ashr_i32. exact g_mul_i32. exact g_bfe_i32. exact g_not_b32. exact g_getpc.
-  exact g_cmpk_eq. exact g_cmpk_lg.
-Qed.
-Print Assumptions gcn3_deviations_refuted.
-
-Theorem cdna3_deviations_refuted :
-  ~ conforms CDNA3 F_SOP2 38 false /\ ~ conforms CDNA3 F_SOP1 4 false /\ ~ conforms CDNA3 F_SOP1 48 false /\
-  ~ conforms CDNA3 F_SOPK 0 false /\ ~ conforms CDNA3 F_SOPK 1 false.
-Proof.
-  repeat split; apply refuted_not_conforms.
-  exact c_bfe_i32. exact c_not_b32. exact c_abs_i32. exact c_movk. exact c_cmovk.
-Qed.
+(** The one handler deviation that remains: CDNA3 s_abs_i32 (the repository's
+    pinned test asserts SCC = (S0 < 0)). *)
+Theorem cdna3_deviations_refuted : ~ conforms CDNA3 F_SOP1 48 false.
+Proof. apply refuted_not_conforms. exact c_abs_i32. Qed.
 Print Assumptions cdna3_deviations_refuted.
 
-(** Rows that hold on narrow operands only: 64-bit operand values leak into a
-    32-bit operation. *)
+(** Rows that hold on narrow operands only: the 64-bit value ReadOperand returns
+    for an inline constant -1..-16 leaks into a 32-bit operation. *)
 Theorem wide_operand_refuted :
-  ~ conforms GCN3 F_SOP2 30 true /\ ~ conforms GCN3 F_SOP2 1 true /\
-  ~ conforms CDNA3 F_SOP2 7 true /\ ~ conforms CDNA3 F_SOP2 44 true.
+  ~ conforms GCN3 F_SOP2 30 true /\ ~ conforms CDNA3 F_SOP2 7 true /\ ~ conforms CDNA3 F_SOP2 44 true.
 Proof.
   repeat split; apply refuted_not_conforms.
-  exact g_lshr_b32_wide. exact g_sub_u32_wide. exact c_min_u32_wide. exact c_mul_hi_wide.
+  exact g_lshr_b32_wide. exact c_min_u32_wide. exact c_mul_hi_wide.
 Qed.
 Print Assumptions wide_operand_refuted.
 
-(** Operand kinds: s_mov_b32 s2, vcc_hi reads VCC_LO; s_mov_b32 s2, exec_hi and
-    s_mov_b32 exec_lo, s0 panic. *)
+(** Operand kinds: s_mov_b32 s2, vccz and s_mov_b32 s2, execz panic. *)
 Theorem special_operand_refuted :
-  operand_refuted GCN3 107 2 /\ operand_refuted CDNA3 107 2 /\
-  operand_refuted GCN3 127 2 /\ operand_refuted CDNA3 127 2 /\
-  operand_refuted GCN3 0 126 /\ operand_refuted CDNA3 0 126.
-Proof.
-  repeat split. exact g_vcc_hi_src. exact c_vcc_hi_src. exact g_exec_hi_src. exact c_exec_hi_src.
-  exact g_exec_lo_dst. exact c_exec_lo_dst.
-Qed.
+  operand_refuted GCN3 251 2 /\ operand_refuted CDNA3 251 2 /\
+  operand_refuted GCN3 252 2 /\ operand_refuted CDNA3 252 2.
+Proof. repeat split. exact g_vccz_src. exact c_vccz_src. exact g_execz_src. exact c_execz_src. Qed.
 Print Assumptions special_operand_refuted.
 
 (** * Non-vacuity: the hypotheses are satisfiable on a concrete non-trivial
@@ -126,7 +102,7 @@ Example ex_add_carry :     (* s_add_u32 s2, s0, s1 with s0 = 0xffffffff, s1 = 1:
   | _, _ => False
   end.
 Proof. vm_compute. repeat split. Qed.
-Example ex_hyp_sop2 : In (i_op (i2 0 0 1 2), true) (sop2_proved32 GCN3) /\ adm32 true 0 /\ adm32 true 106 /\ admd32 2.
+Example ex_hyp_sop2 : In (i_op (i2 0 0 1 2), true) (sop2_proved32 GCN3) /\ adm32 true 0 /\ adm32 true 106 /\ adm32 false 107 /\ admd32 126.
 Proof. repeat split; cbn; unfold adm32, admd32; auto; lia. Qed.
 Example ex_branch_taken :  (* s_cbranch_scc0 -2 from pc = 1024 *)
   match exec_scalar GCN3 ex_state (mkInst F_SOPP 4 (-1) (-1) (-1) (-1) 65534 0) with
